@@ -847,6 +847,25 @@ func (f *frame) evalClauseTV(cl Clause, env *Env) (tv TV) {
 	return f.vc.evalSpec(cl.Expr, env)
 }
 
+// tryEvalClause evaluates a boolean clause; ok is false (and nothing is reported) when a name in it is
+// not in scope at this program point.
+func (f *frame) tryEvalClause(cl Clause, env *Env) (t Term, ok bool) {
+	defer func() {
+		if r := recover(); r != nil {
+			if se, isSE := r.(specError); isSE && strings.Contains(string(se), "unknown name") {
+				t, ok = TTrue, false
+				return
+			}
+			panic(r)
+		}
+	}()
+	tv := f.vc.evalSpec(cl.Expr, env)
+	if tv.T.Sort != SBool {
+		return TTrue, false
+	}
+	return tv.T, true
+}
+
 // ---------------------------------------------------------------- source text
 
 func (p *Program) srcText(pos token.Pos, want string) string {
